@@ -101,7 +101,9 @@ ASSUME AlgebraStatusOK
 (* ------------------------------------------------------------------------ *)
 T == TRUE
 F == FALSE
-Sh(p, k, c) == [parent |-> p, kind |-> k, crit |-> c]
+\* (src: for every node its id in the workflow template it comes from - the identity here)
+Sh(p, k, c) == [parent |-> p, kind |-> k, crit |-> c, src |-> [i \in 1..Len(p) |-> i]]
+ShP(p, k, c, o) == [parent |-> p, kind |-> k, crit |-> c, src |-> o]
 Shapes ==
   [ \* flat
     S01 |-> Sh(<<0, 1, 1>>, <<"agg", "task", "task">>, <<T, T, T>>),
@@ -134,8 +136,56 @@ Shapes ==
     S13 |-> Sh(<<0, 1>>, <<"agg", "task">>, <<T, F>>),
     \* include inside an aggregator inside an include, depth 3, mixed criticality
     S14 |-> Sh(<<0, 1, 2, 3, 3, 2, 1>>, <<"agg", "inc", "agg", "task", "call", "task", "task">>,
-               <<T, T, T, T, F, F, T>>)
+               <<T, T, T, T, F, F, T>>),
+    \* what the loader leaves of the templates Sources (below) whose roles are partly disabled: written
+    \* out (TLC evaluates a literal table once) and ASSUMEd equal to Prune(Sources[s])
+    S15 |-> ShP(<<0, 1, 2, 2, 1, 5>>, <<"agg", "agg", "task", "task", "agg", "task">>, <<T, T, T, T, T, F>>,
+                <<1, 2, 3, 4, 5, 7>>),
+    S16 |-> ShP(<<0, 1, 2, 1, 4>>, <<"agg", "agg", "task", "inc", "call">>, <<T, T, T, T, F>>, <<1, 2, 3, 6, 7>>),
+    S17 |-> ShP(<<0, 1, 2, 2, 1>>, <<"agg", "agg", "task", "call", "task">>, <<T, T, T, F, F>>, <<1, 2, 4, 5, 6>>),
+    S18 |-> ShP(<<0, 1>>, <<"agg", "task">>, <<T, F>>, <<1, 3>>),
+    S19 |-> ShP(<<0, 1, 2, 1>>, <<"agg", "agg", "task", "task">>, <<T, T, F, T>>, <<1, 5, 6, 8>>)
   ]
+
+(* Workflow templates with roles disabled by their `enabled` field. The loader (ProcessTemplates) *)
+(* prunes a disabled role with its subtree, and an aggregator / include left without roles; the   *)
+(* role tree the property speaks of is the tree AFTER pruning: "has a critical descendant" and     *)
+(* the folds are decided on the surviving leaves only (aggregatorrole.go: ProcessTemplates).       *)
+Src(p, k, c, e) == [parent |-> p, kind |-> k, crit |-> c, en |-> e]
+Sources ==
+  [ \* the only critical leaf of b is disabled, a non-critical sibling remains: b has no opinion
+    S15 |-> Src(<<0, 1, 2, 2, 1, 5, 5>>, <<"agg", "agg", "task", "task", "agg", "task", "task">>,
+                <<T, T, T, T, T, T, F>>, <<T, T, T, T, T, F, T>>),
+    \* nothing remains of b (pruned with its disabled task); the include keeps a non-critical call only
+    S16 |-> Src(<<0, 1, 2, 1, 4, 1, 6, 6>>, <<"agg", "agg", "task", "agg", "task", "inc", "call", "task">>,
+                <<T, T, T, T, T, T, F, T>>, <<T, T, T, T, F, T, T, F>>),
+    \* a critical leaf is disabled, another critical leaf of the same aggregator remains
+    S17 |-> Src(<<0, 1, 2, 2, 2, 1>>, <<"agg", "agg", "task", "task", "call", "task">>,
+                <<T, T, T, T, F, F>>, <<T, T, F, T, T, T>>),
+    \* the root itself is left with a non-critical task only (its critical call is disabled)
+    S18 |-> Src(<<0, 1, 1>>, <<"agg", "call", "task">>, <<T, T, F>>, <<T, F, T>>),
+    \* a disabled aggregator goes with its critical tasks; a disabled non-critical leaf changes nothing
+    S19 |-> Src(<<0, 1, 2, 2, 1, 5, 5, 1>>, <<"agg", "agg", "task", "task", "agg", "task", "task", "task">>,
+                <<T, T, T, T, T, F, F, T>>, <<T, F, T, T, T, T, F, T>>)
+  ]
+
+Prune(src) ==
+  LET n == Len(src.parent)
+      isleaf(m) == src.kind[m] \in {"task", "call"}
+      RECURSIVE anc(_)
+      anc(m) == IF m = 0 THEN {} ELSE {m} \cup anc(src.parent[m])
+      \* a leaf survives when it and all its ancestors are enabled; an aggregator when a leaf below it does
+      liveLeaf(l) == isleaf(l) /\ \A m \in anc(l) : src.en[m]
+      alive == {m \in 1..n : \E l \in 1..n : liveLeaf(l) /\ m \in anc(l)}
+      idx(m) == Cardinality({x \in alive : x <= m})
+      nth(i) == CHOOSE m \in alive : idx(m) = i
+      k == Cardinality(alive)
+  IN [parent |-> [i \in 1..k |-> IF src.parent[nth(i)] = 0 THEN 0 ELSE idx(src.parent[nth(i)])],
+      kind |-> [i \in 1..k |-> src.kind[nth(i)]],
+      crit |-> [i \in 1..k |-> src.crit[nth(i)]],
+      src |-> [i \in 1..k |-> nth(i)]]
+
+ASSUME \A s \in DOMAIN Sources : s \in DOMAIN Shapes /\ Shapes[s] = Prune(Sources[s])
 
 Tree == Shapes[shape]
 N == Len(Tree.parent)
